@@ -242,10 +242,26 @@ func rangeClass(l *layout, q request, off, ln uint64, sat bool) string {
 func check(w *world, l *layout, q request) {
 	n := uint64(l.Size)
 	off, ln, sat := refRange(q, n)
-	before := w.remoteCalls.Load()
-	cw, err := doRequest(w, l, q)
-	r.Eval(1)
 	c := tcase{Layout: *l, Req: q}
+	var cw *capWriter
+	var err error
+	func() {
+		defer func() {
+			if p := recover(); p != nil {
+				op := "range"
+				if q.Mode == "get" {
+					op = "get"
+				}
+				viol("panic:"+layoutClass(l)+":"+op, fmt.Sprintf("%s %s(%d,%d) on %d bytes: read path panicked: %v", l.label(), q.Mode, q.A, q.B, n, p), c)
+				cw = nil
+			}
+		}()
+		cw, err = doRequest(w, l, q)
+	}()
+	r.Eval(1)
+	if cw == nil {
+		return
+	}
 	lc := layoutClass(l)
 	rc := rangeClass(l, q, off, ln, sat)
 	op := "range"
@@ -257,7 +273,6 @@ func check(w *world, l *layout, q request) {
 	desc := func() string {
 		return fmt.Sprintf("%s %s(%d,%d) on %d bytes", l.label(), q.Mode, q.A, q.B, n)
 	}
-	_ = before
 	if q.Mode == "getrange" && q.B == 0 {
 		// zero-length legacy range is refused at the API layer before it reaches the service; only recorded
 		class("getrange-zero-length:" + fmt.Sprint(err != nil))
@@ -428,7 +443,11 @@ func main() {
 		kinds[layoutClass(l)]++
 	}
 	r.Set("layouts_by_class", kinds)
-	r.Rule("layouts: whole x 7 sizes; v1/v2 x link/no-link x size {2,3,5,8,13} x limit 1..4 (size>limit); EC {2/1,3/1,2/2} x 7 sizes x every missing-part set of size <= parity; v2 split whose children are EC 2/1 parts x link/no-link x {no part, part 0, 1 or 2 of every child missing}. requests per layout: Get, and offset+length / inclusive bounds / GetRange for every pair, from / suffix for every value, values 0..len+2 and {2^64-1, 2^64-2, 2^63, 2^32}. one evaluation = one request checked against the reference; non-trivial = distinct (layout, satisfiable non-empty range) on a non-whole layout answered correctly, or distinct unsatisfiable request refused with out-of-range")
+	tier := "sizes {0,1,2,3,5,8,13}, split limit 1..4, EC {2/1,3/1,2/2}"
+	if r.Thorough() {
+		tier = "sizes {0,1,2,3,5,8,13,21}, split limit 1..5, EC {2/1,3/1,2/2,3/2,1/1}"
+	}
+	r.Rule("layouts (" + tier + "): whole x every size; v1/v2 x link/no-link x every size > limit; EC rules x every size x every missing-part set of size <= parity; v2 split whose children are EC 2/1 parts x link/no-link x {no part, part 0, 1 or 2 of every child missing}. requests per layout: Get, and offset+length / inclusive bounds / GetRange for every pair, from / suffix for every value, values 0..len+2 and {2^64-1, 2^64-2, 2^63, 2^32}. one evaluation = one request checked against the reference; non-trivial = distinct (layout, satisfiable non-empty range) on a non-whole layout answered correctly, or distinct unsatisfiable request refused with out-of-range")
 	r.Exhaustive(!notExhaustive.Load())
 	r.Assume("all pieces are on the local node (real 1-shard engine); remote fetching, forwarding and multi-node EC placement are not exercised",
 		"payload contents are one fixed pattern of distinct bytes; sizes up to 13 and split limits up to 4 stand for the child/part boundary arithmetic of larger objects (the quantifier's 64 KiB / 1-4 KiB ranges are not reached)",
